@@ -118,8 +118,8 @@ def fold(path, rec, tags_attr, var=None, handle=None, sink_call=None):
             b.feed(e)
         if var and isinstance(st, ast.Return) and st.value is not None and norm(st.value) == var:
             emitted = b.env.get(var)
-        elif var and isinstance(st, ast.Return) and st.value is not None and b.env.get(var) and b.env[var][0][0] == "listvar" and var in {x.id for x in ast.walk(st.value) if isinstance(x, ast.Name)}:
-            emitted = tmpl._merge(tmpl.of_expr(st.value, b._env()))
+        elif var and isinstance(st, ast.Return) and st.value is not None and b.env.get(var) and var in {x.id for x in ast.walk(st.value) if isinstance(x, ast.Name)}:
+            emitted = tmpl._merge(tmpl.of_expr(dealias(st.value), b._env()))
         if var and isinstance(st, ast.Expr) and isinstance(st.value, (ast.Yield,)) and st.value.value is not None and norm(st.value.value) == var:
             emitted = b.env.get(var)
     if handle:
@@ -131,6 +131,11 @@ def split_record(parts):
     """-> (mandatory columns [list of parts per column], rest parts after the 12th column)"""
     cols = tmpl.columns(parts)
     return cols
+
+
+def _partial_result(callee):
+    """helpers that report failure by a boolean constant (the interval merge) are models of their own, not inlined"""
+    return any(isinstance(r, ast.Return) and isinstance(r.value, ast.Constant) and isinstance(r.value.value, bool) for r in ast.walk(callee.node))
 
 
 def find_emitters(ctx, rule):
@@ -149,11 +154,9 @@ def find_emitters(ctx, rule):
         body0 = [st for st in f0.node.body if not (isinstance(st, ast.Expr) and isinstance(st.value, ast.Constant))]
         if len(body0) == 1 and isinstance(body0[0], ast.Return) and repo.callers_of(f0):
             continue  # a single-return helper: analysed inlined into its callers
-        # a function that hands its line to a same-module helper in tail position is analysed with the helper inlined
-        f = tail_inlined(repo, f0) if any(isinstance(st, ast.Return) and isinstance(st.value, ast.Call) and repo.resolve_call(f0, st.value) is not None and repo.resolve_call(f0, st.value).module is f0.module for st in f0.node.body) else f0
-        # single-return helpers that build the mandatory columns, and module-level format constants
-        if any(isinstance(c, ast.Call) and (h := repo.resolve_call(f, c)) is not None and h.module is f.module and h is not f0 and any(isinstance(x, ast.Attribute) and x.attr in schema for x in ast.walk(h.node)) for c in walk_own(f.node)):
-            f = inlined(repo, f)
+        # helpers of the same module are analysed inlined: statement-level (tail calls, procedures, result helpers) and
+        # single-return helpers at expression level
+        f = inlined(repo, tail_inlined(repo, f0, keep=_partial_result))
         f = inline_access_aliases(with_str_consts(f))
         recs = record_params(f, schema) | ({"self"} if f.cls == extras["class"] else set())
         # candidate 12-column templates
